@@ -127,6 +127,21 @@ let handle line =
            let (shown, allo) = (match o, cs with Some _, Some _ -> show_observed b cs | _, _ -> (show_sections b'.b_sections, "ERR")) in
            print_string ("C 0 " ^ shown ^ " " ^ (match o with Some o -> show_cv (Node o) | None -> "ERR") ^ " " ^ allo ^ " ; F X\n")
        | [] -> failwith "C: file count expected")
+  | "G" :: r ->
+      (* G <sections> <section> <key> v|b|d <default>   default: v: - or <str>;  b: t|f;  d: - or <cv> *)
+      let (secs, r1) = parse_cv r in
+      let secs = items secs in
+      let show_res f = function CfgOk a -> "ok " ^ f a | CfgKeyError -> "keyerror" | CfgTypeError -> "typeerror" | CfgUnmodelled -> "unmodelled" in
+      (match r1 with
+       | sec :: k :: "v" :: d :: _ ->
+           print_string ("G " ^ show_res (fun s -> "s" ^ show_str s)
+                                  (config_value secs (parse_str sec) (parse_str k) (if d = "-" then None else Some (parse_str d))) ^ "\n")
+       | sec :: k :: "b" :: d :: _ ->
+           print_string ("G " ^ show_res (fun b -> if b then "t" else "f") (config_value_as_bool secs (parse_str sec) (parse_str k) (d = "t")) ^ "\n")
+       | sec :: k :: "d" :: d ->
+           let dv = (match d with "-" :: _ -> None | _ -> Some (items (fst (parse_cv d)))) in
+           print_string ("G " ^ show_res (fun m -> show_cv (Node m)) (config_value_as_dict secs (parse_str sec) (parse_str k) dv) ^ "\n")
+       | _ -> print_string "ERR G\n")
   | _ -> print_string "ERR request\n"
 
 let () =
